@@ -9,6 +9,7 @@ import SfntV.Proofs.NamesPost
 import SfntV.Proofs.NamesTable
 import SfntV.Proofs.NamesLocale
 import SfntV.Proofs.NamesChoose
+import SfntV.Proofs.NamesLangTables
 import SfntV.Proofs.NamesScriptList
 import SfntV.Spec.Names
 
@@ -95,6 +96,25 @@ theorem C14_language_tables_ok :
     tableOK Gen.appleBCP = true ∧ keysDistinct Gen.appleBCP = true ∧
     tableOK Gen.msBCP = true ∧ keysDistinct Gen.msBCP = true := by
   refine ⟨?_, ?_, ?_, ?_⟩ <;> decide +kernel
+
+/-- Table-level obligation on the language-id tables regenerated from name/locale.go ("platform
+language identifiers map to BCP 47 tags and back without loss"): in `appleBCP` no two language ids
+share a tag; in `msBCP` no two language ids share a tag EXCEPT 0x040A and 0x0C0A (Spanish,
+traditional and modern sort: both `es-ES`, a legitimate alias — records under the two ids merge
+on `Decode`); and every value of both tables has the shape `language[-Script][-REGION]`.  Whole
+tables, kernel evaluation: a wrong entry (two ids given the same tag) breaks this theorem. -/
+theorem C14_language_tables_injective :
+    (Gen.appleBCP.Pairwise fun p q => p.2 = q.2 → False) ∧
+    (Gen.msBCP.Pairwise fun p q => p.2 = q.2 →
+      (p.1 = 0x0C0A ∧ q.1 = 0x040A) ∨ (p.1 = 0x040A ∧ q.1 = 0x0C0A)) ∧
+    (Gen.appleBCP.all fun p => wfTag p.2) = true ∧ (Gen.msBCP.all fun p => wfTag p.2) = true := by
+  refine ⟨?_, ?_, appleBCP_wellformed, msBCP_wellformed⟩
+  · exact (table_injective _ _ appleBCP_injective).imp fun h heq => by
+      have := h heq; cases this
+  · exact (table_injective _ _ msBCP_injective).imp fun h heq => by
+      have := h heq
+      simp only [aliasMs, Bool.or_eq_true, Bool.and_eq_true, beq_iff_eq] at this
+      exact this
 
 /-- The domain of the name-table round trip over the regenerated tables: `macOrder`/`winOrder`
 are the orders in which Go iterates over `appleBCP`/`msBCP` (any enumeration of the maps); the
